@@ -292,6 +292,13 @@ def run_shard(desc):
             al = n - 4 - wl
             body = struct.pack('!H', wl) + body[:wl] + struct.pack('!H', al) + body[wl : wl + al]
         run_one(res, sensor, mtype, body, nb, neg, 'random', sk, must_decode=False, K=K)
+    # ---- (4b) right framing, hostile values: every registered family and the TLV-structured attributes
+    for i in range(desc['inputs'] // 2):
+        sk, (nb, neg) = sess(r.randrange(64))
+        body = gw.gen_structured(r, sk['asn4'])
+        if len(body) > int(neg.msg_size) - 19:
+            continue
+        run_one(res, sensor, 2, body, nb, neg, 'structured', sk, must_decode=False, K=K)
     # ---- (5) RFC-valid but unusual: must decode; scaling law and stack depth
     for ui, kind in enumerate(UNUSUAL):
         if (ui + desc['shard']) % 2 and desc['tier'] == 'quick':
@@ -331,7 +338,7 @@ def run_shard(desc):
 
 
 def finish(merged, tier, seed):
-    need = ['update:valid', 'open:valid', 'notification:valid', 'refresh:valid', 'update:mutated', 'update:random', 'update:qa-seed'] + [f'update:unusual:{k}' for k in UNUSUAL]
+    need = ['update:valid', 'open:valid', 'notification:valid', 'refresh:valid', 'update:mutated', 'update:random', 'update:structured', 'update:qa-seed'] + [f'update:unusual:{k}' for k in UNUSUAL]
     missing = [c for c in need if not merged['classes'].get(c)]
     if missing:
         merged['inconclusive'].append('classes never judged: ' + ','.join(missing))
